@@ -10,7 +10,8 @@ class SpecC02(e1_driver.Spec):
     profile = dict(
         p_pool_l=0.15, p_pool_s=0.15, p_frequent_bounds=0.2,
         family=None,
-        fault_kinds=['stop_resume', 'stop_resume', 'kill', 'kill', 'slice',
+        fault_kinds=['stop_resume', 'stop_resume', 'kill', 'kill',
+                     'kill_in_write', 'slice',
                      'toggle', 'toggle', 'toggle', 'timeout', 'observe'])
     runs = dict(quick=80, thorough=1500)
     budget = dict(quick=120, thorough=1500)
@@ -34,7 +35,8 @@ class SpecC02(e1_driver.Spec):
     def nontrivial(self, r):
         f = r.get('faults') or {}
         p = r.get('probes') or {}
-        fired = sum(f.get(k, 0) for k in ('stop_resume', 'kill', 'toggle'))
+        fired = sum(f.get(k, 0) for k in ('stop_resume', 'kill', 'toggle',
+                                         'kill_in_write'))
         return fired > 0 and p.get('transfers_applied', 0) > 0
 
     def monitor_stats(self, m):
